@@ -7,7 +7,7 @@ PATCH=$(readlink -f "$1"); PROPS=${2:-all}
 cd /repo || exit 2
 if [ -n "$(git status --porcelain --untracked-files=no)" ]; then echo "try_seed: /repo not clean" >&2; exit 2; fi
 git apply "$PATCH" || { echo "try_seed: patch does not apply"; exit 2; }
-trap 'git -C /repo checkout -- . ' EXIT
+trap 'git -C /repo apply -R "$PATCH" 2>/dev/null || git -C /repo checkout -- . ' EXIT
 . /verif/env.sh
 EV=$(mktemp -d /tmp/gs-seed-ev.XXXXXX)
 (cd /repo && go build ./... ) || { echo "try_seed: does not compile"; rm -rf $EV; exit 2; }
